@@ -3,6 +3,7 @@ package main
 import (
 	"fmt"
 	"os"
+	"os/exec"
 	"path/filepath"
 	"regexp"
 	"sort"
@@ -129,4 +130,13 @@ func hangSeen(r *hx.Run) {
 	if hangCount.Add(1) >= 3 {
 		r.Abort()
 	}
+}
+
+// harnessFailure: the child never ran (exec error) or ended normally without leaving its result file
+func harnessFailure(runErr, readErr error) bool {
+	if runErr != nil {
+		_, exited := runErr.(*exec.ExitError)
+		return !exited
+	}
+	return readErr != nil
 }
